@@ -5,7 +5,7 @@ import z3
 from . import sorts as S
 from .sorts import V, INT, BOOL, STR, BYTES, NONE, ANY, Seq, Tup, Opt, SetS, MapS, Opaque, Enum, Obj, PySide, EXC, FUNC
 from .state import EngineError, SpecDrift
-from .engine import GLOB, POLY_LIST, POLY_DICT, POLY_SET, ITER, LValue, exc_value, LOGGING_CALLS, EXC_NAME
+from .engine import GLOB, POLY_LIST, POLY_DICT, POLY_SET, ITER, LValue, exc_value, imp_value, LOGGING_CALLS, EXC_NAME
 
 _attr_funcs = {}
 
@@ -40,7 +40,7 @@ class ExprMixin:
         """Fork an implicit exception when `cond` may hold; returns the state where it does not (or None)."""
         bad, ok = self.branch(st, cond)
         if bad is not None:
-            exc.append((bad, exc_value(cls, getattr(node, "lineno", 0), note or ast.unparse(node))))
+            exc.append((bad, imp_value(cls, getattr(node, "lineno", 0), note or ast.unparse(node))))
         return ok
 
     def unwrap(self, v, st, node, exc):
@@ -96,7 +96,7 @@ class ExprMixin:
             return [(st, S.NONEV())]
         if n in self.local_names and n not in self.global_reads:
             # read of a local before assignment on this path
-            exc.append((st, exc_value("UnboundLocalError", e.lineno, n)))
+            exc.append((st, imp_value("UnboundLocalError", e.lineno, n)))
             return []
         return [(st, V(GLOB, n))]
 
@@ -123,7 +123,7 @@ class ExprMixin:
                 return []
             return self.get_attr(base.s.val(base), attr, ok, node, exc)
         if base.s == NONE:
-            exc.append((st, exc_value("AttributeError", node.lineno, ast.unparse(node))))
+            exc.append((st, imp_value("AttributeError", node.lineno, ast.unparse(node))))
             return []
         if base.s.pyside:
             return [(st, V(FUNC, ("attr", base, attr)))]
@@ -210,7 +210,7 @@ class ExprMixin:
             bb = self.coerce(b, a.s)
             if bb is None:
                 if isinstance(a.s, S._Str):
-                    exc.append((st, exc_value("TypeError", node.lineno, "concat " + ast.unparse(node))))
+                    exc.append((st, imp_value("TypeError", node.lineno, "concat " + ast.unparse(node))))
                     return []
                 raise EngineError("concatenation of %s and %s (L%d)" % (a.s, b.s, node.lineno))
             r = a + bb
@@ -703,14 +703,14 @@ class ExprMixin:
                 if k < 0:
                     k += len(base.s.elems)
                 if not 0 <= k < len(base.s.elems):
-                    exc.append((s1, exc_value("IndexError", node.lineno)))
+                    exc.append((s1, imp_value("IndexError", node.lineno)))
                     continue
                 res.append((s1, base.s.get(base, k)))
                 continue
             if isinstance(base.s, MapS):
                 k = self.coerce(ix[1], base.s.key)
                 if k is None:
-                    exc.append((s1, exc_value("KeyError", node.lineno)))
+                    exc.append((s1, imp_value("KeyError", node.lineno)))
                     continue
                 s1 = self.raise_if(s1, S.Not(S.In(k, base)), "KeyError", node, exc)
                 if s1 is None:
